@@ -332,6 +332,11 @@ def ifexpr_spec(k, test_kind, n):
             if not (isinstance(res, list) and len(res) == len(real_blocks) and all(a is b for a, b in zip(res, real_blocks))):
                 return False
             test_val = real_inp.fields["_test"].fields["_result"]
+            # program order: the test is evaluated (sampled) BEFORE the statements bound to the two alternatives -- both
+            # alternatives are evaluated (if-expressions do not short-circuit), but a side effect of an alternative
+            # (`v @= False` inside a called function) must not change the test that was written before it
+            if sx.it.events != [("operand", "test"), ("operand", "body"), ("operand", "orelse")]:
+                return False
             for b in real_blocks:
                 c = b.fields["f_content"]
                 if len(c) != k:
@@ -384,7 +389,41 @@ for k in (0, 1, 2):
                 it.events = []
 
             c.setup = setup
+            c.custom_replay = "contracts.c03_lowering.replay_ifexpr_order"
             con.cases.append(c)
+
+_IFEXPR_ORDER_DESIGN = '''
+import cohdl
+from cohdl import Bit, Unsigned, Port, Variable, std
+class Obs(cohdl.Entity):
+    clk = Port.input(Bit)
+    a = Port.input(Unsigned[4])
+    b = Port.input(Unsigned[4])
+    c = Port.input(Bit)
+    o = Port.output(Unsigned[4])
+    def architecture(self):
+        v = Variable[Bit](False)
+        def f():
+            nonlocal v
+            v @= False
+            return self.a
+        @std.sequential(std.Clock(self.clk))
+        def proc():
+            nonlocal v
+            v @= self.c
+            self.o <<= f() if v else self.b     # program order: the test reads v == c, THEN f() clears v
+lines = [l.strip() for l in std.VhdlCompiler.to_string(Obs).splitlines()]
+i_side = lines.index("v := '0';")
+i_test = next(i for i, l in enumerate(lines) if l.endswith(":= v = '1';"))
+print("TEST-AFTER-SIDE-EFFECT" if i_side < i_test else "TEST-FIRST", i_side, i_test)
+'''
+
+
+def replay_ifexpr_order(payload):
+    from contracts.c06_extra import _run_design
+
+    rc, out = _run_design(_IFEXPR_ORDER_DESIGN)
+    return {"reproduced": rc == 0 and "TEST-AFTER-SIDE-EFFECT" in out, "detail": out[-300:]}
 
 
 def select_shape(k, nb, with_default):
